@@ -9,7 +9,7 @@ from typing import Dict, List, Optional, Tuple
 from .cfg import cfg_of
 from .index import AnalysisError, FuncInfo, function_stmts, walk_no_nested
 from .roles import callable_list_loops, list_element_args, self_method
-from .util import callee_last, calls_in, enclosing_stmt, kw, path_condition, show_condition, txt
+from .util import bool_atoms, callee_last, calls_in, enclosing_stmt, kw, path_condition, show_condition, txt
 
 
 def is_check_loop(loop: ast.For) -> bool:
@@ -91,6 +91,16 @@ def no_dropped_result(ctx, rule, f: FuncInfo, loop: ast.For, producers: List[Fun
         p = cfg.must_pass(s, {head.id}, cnodes, skip_labels=("exc", "fin-exc"))
         if p is not None or s == head.id:
             bypass = p or [s]
+    # the skipping branch must be taken for passed results only
+    skip_label = "True" if pol else "False"
+    skip_starts = [b for b, lab in cfg.succ[t.id] if lab == skip_label]
+    atoms = sorted(bool_atoms(t.ast))
+    only_passed = len(atoms) == 1 and "passed" in atoms[0]
+    if not only_passed:
+        ctx.ob(rule, f, f"only passed results of {f.short} skip collect_error", False,
+               f"results are skipped under `{txt(t.ast)}`, not only when they passed: failed results matching the extra "
+               "condition are dropped from the report", f.loc(t.ast))
+        return
     if bypass is None:
         ctx.ob(rule, f, f"every failed result of {f.short} reaches collect_error", True,
                "must-pass-through holds from the failing branch of result.passed to the next iteration")
